@@ -87,6 +87,7 @@ pub fn scaled(n: u64) -> u64 {
 
 thread_local! {
     static LAST_PANIC: RefCell<String> = RefCell::new(String::new());
+    static LAST_PANIC_IN_BOURSE: RefCell<bool> = RefCell::new(false);
 }
 
 pub fn install_panic_hook() {
@@ -99,7 +100,14 @@ pub fn install_panic_hook() {
         } else {
             "panic".to_string()
         };
+        // Was bourse code on the stack? (a panic raised in a dependency on behalf of bourse, e.g.
+        // rand's gen_bool called by an agent, is bourse's; one raised by the harness itself is not)
+        let in_bourse = loc.contains("/repo/") || {
+            let bt = std::backtrace::Backtrace::force_capture().to_string();
+            bt.lines().any(|l| (l.contains("bourse_book::") || l.contains("bourse_de::") || l.contains("bourse_macros::")) && !l.contains("bourse_verif"))
+        };
         LAST_PANIC.with(|p| *p.borrow_mut() = format!("{} at {}", msg, loc));
+        LAST_PANIC_IN_BOURSE.with(|p| *p.borrow_mut() = in_bourse);
     }));
 }
 
@@ -109,7 +117,16 @@ pub fn last_panic() -> String {
 
 /// Shorten a repository path inside a panic location to its crate-relative tail.
 fn short_loc(s: &str) -> String {
-    s.replace("/repo/crates/", "").replace("/repo/", "")
+    let s = s.replace("/repo/crates/", "").replace("/repo/", "");
+    // registry paths: keep the crate-relative tail only
+    match (s.find("/.cargo/registry/src/"), s.rfind(" at ")) {
+        (Some(i), Some(j)) if j < i => {
+            let tail = &s[i + "/.cargo/registry/src/".len()..];
+            let tail = tail.split_once('/').map(|x| x.1).unwrap_or(tail);
+            format!("{} at {}", &s[..j], tail)
+        }
+        _ => s,
+    }
 }
 
 /// Run `f`, turning a panic into a `Failure` of property `prop`. Panics raised by the harness's
@@ -119,8 +136,9 @@ pub fn guarded<T>(prop: &str, f: impl FnOnce() -> T) -> Result<T, Failure> {
         Ok(v) => Ok(v),
         Err(e) => {
             let p = last_panic();
-            // only a panic raised inside bourse's own sources is a finding about bourse
-            if !p.contains("/repo/") || p.contains("harness:") {
+            // only a panic raised by (or on behalf of) bourse's own code is a finding about bourse
+            let in_bourse = LAST_PANIC_IN_BOURSE.with(|b| *b.borrow());
+            if !in_bourse || p.contains("harness:") {
                 eprintln!("HARNESS-ERROR: {}", p);
                 std::panic::resume_unwind(e);
             }
